@@ -354,7 +354,9 @@ func runE2E(r *ev.Run, idx int, minOps, maxOps int) {
 				r.Inconclusive(fmt.Sprintf("e2e sequence %d: %s", idx, inc.Why))
 				return
 			}
+			st.count("violations.e2e."+panicSig(cur), 1)
 			r.Violation(panicSig(cur), fmt.Sprintf("panic while executing %s: %v\n%s", cur, p, debug.Stack()), x.witness())
+			finishSeq(r, st, lg, x.m, "e2e", true)
 		}
 	}()
 	cur = &op{Kind: "setup"}
